@@ -45,7 +45,8 @@ def parseNode : Nat → Json → Except String Node
       | .ok (.arr a) => a.toList.mapM parsePair
       | _ => pure []
     return .mk (← getNat j "i") (← getNat j "d") (← getStr j "n") attrs
-      (← parseTy (← j.getObjVal? "t")) (← getStr j "x") xmlns kids
+      (← parseTy (← j.getObjVal? "t")) (← getStr j "x")
+      (match j.getObjValAs? Nat "ck" with | .ok c => c | .error _ => 0) xmlns kids
 
 def parseKind (s : String) : Except String Kind :=
   match s with
@@ -96,6 +97,8 @@ def idErrJ : IdErr → Json
 def handle (j : Json) : Except String Json := do
   let sch ← parseSchema (← j.getObjVal? "schema")
   let root ← parseNode 4096 (← j.getObjVal? "doc")
+  let v11 := match j.getObjValAs? Bool "v11" with | .ok x => x | .error _ => false
+  let rootReg := match j.getObjValAs? Bool "rootreg" with | .ok x => x | .error _ => false
   if !lexOk sch root then throw "badlex"
   if !root.sibOk then throw "ids"
   let st := runDoc sch root
@@ -104,7 +107,9 @@ def handle (j : Json) : Except String Json := do
     ("m", Json.mkObj [("errs", Json.arr (st.errs.reverse.map errJ).toArray),
                       ("nested", nats st.nested.eraseDups)]),
     ("o", Json.arr (o.eraseDups.map fun (c, cl) => Json.arr #[nat c, clauseJ cl]).toArray),
-    ("id", Json.arr ((idRun (idEvents root)).map idErrJ).toArray),
+    ("id", Json.arr ((idRun (idEvents v11 rootReg root)).map idErrJ).toArray),
+    -- S for ID / IDREF: every ID occurrence is recorded, the root's content included
+    ("ido", Json.arr ((idRun (idEvents v11 true root)).map idErrJ).toArray),
     ("flags", Json.mkObj [
       ("spread", Json.arr ((referSpread sch root).map fun (c, m) => Json.arr #[nat c, nat m]).toArray),
       ("conflict", conflict sch root),
